@@ -17,12 +17,13 @@ From HC Require Import Crypto.
 Open Scope Z_scope.
 
 Section C17.
-  Variable seal : bytes -> bytes -> bytes -> bytes.
-  Variable open_ : bytes -> bytes -> bytes -> option bytes.
+  Variable seal : bytes -> bytes -> bytes -> bytes -> bytes.
+  Variable open_ : bytes -> bytes -> bytes -> bytes -> option bytes.
   Variable decode_key : bytes -> option bytes.
-  Hypothesis open_seal : forall k n v, open_ k n (seal k n v) = Some v.
-  Hypothesis open_auth : forall k n c v, open_ k n c = Some v -> c = seal k n v.
-  Hypothesis open_wrong_key : forall k k' n v, k <> k' -> open_ k' n (seal k n v) = None.
+  Hypothesis open_seal : forall k a n v, open_ k a n (seal k a n v) = Some v.
+  Hypothesis open_auth : forall k a n c v, open_ k a n c = Some v -> c = seal k a n v.
+  Hypothesis open_wrong_key : forall k k' a n v, k <> k' -> open_ k' a n (seal k a n v) = None.
+  Hypothesis open_wrong_name : forall k a a' n v, a <> a' -> open_ k a' n (seal k a n v) = None.
 
   Theorem C17_wiring : forall encrypt_param key_param env_key,
     dsn_requests_encryption encrypt_param = true ->
@@ -44,61 +45,73 @@ Section C17.
     destruct (valid_key_len k) eqn:E; [right; exists k; auto|left; reflexivity].
   Qed.
 
-  Theorem C17_files : forall k nonce v, file_bytes seal (Some k) nonce v = nonce ++ seal k nonce v.
+  Theorem C17_files : forall k name nonce v, file_bytes seal (Some k) name nonce v = nonce ++ seal k name nonce v.
   Proof. reflexivity. Qed.
 
-  Theorem C17_roundtrip : forall k nonce v, List.length nonce = nonce_size ->
-    read_file open_ (Some k) (file_bytes seal (Some k) nonce v) = Some v.
+  Theorem C17_roundtrip : forall k name nonce v, List.length nonce = nonce_size ->
+    read_file open_ (Some k) name (file_bytes seal (Some k) name nonce v) = Some v.
   Proof.
-    intros k nonce v Hn. cbn [read_file file_bytes]. unfold decrypt, encrypt.
+    intros k name nonce v Hn. cbn [read_file file_bytes]. unfold decrypt, encrypt.
     rewrite app_length, Hn.
-    assert (Hlt : (nonce_size + List.length (seal k nonce v) <? nonce_size)%nat = false) by (apply Nat.ltb_ge; lia).
+    assert (Hlt : (nonce_size + List.length (seal k name nonce v) <? nonce_size)%nat = false) by (apply Nat.ltb_ge; lia).
     rewrite Hlt. rewrite <- Hn, firstn_app, Nat.sub_diag, firstn_all, firstn_O, app_nil_r.
     rewrite skipn_app, Nat.sub_diag, skipn_all, skipn_O. cbn [app]. apply open_seal.
   Qed.
 
   (* whatever is accepted is a genuine ciphertext of exactly that value under its own nonce *)
-  Theorem C17_tamper : forall k data v,
-    read_file open_ (Some k) data = Some v ->
-    (nonce_size <= List.length data)%nat /\ data = file_bytes seal (Some k) (firstn nonce_size data) v.
+  Theorem C17_tamper : forall k name data v,
+    read_file open_ (Some k) name data = Some v ->
+    (nonce_size <= List.length data)%nat /\ data = file_bytes seal (Some k) name (firstn nonce_size data) v.
   Proof.
-    intros k data v H. cbn [read_file] in H. unfold decrypt in H.
+    intros k name data v H. cbn [read_file] in H. unfold decrypt in H.
     destruct (List.length data <? nonce_size)%nat eqn:E; [discriminate|].
     apply Nat.ltb_ge in E. split; [exact E|].
     apply open_auth in H. cbn [file_bytes]. unfold encrypt. rewrite <- H. symmetry. apply firstn_skipn.
   Qed.
 
-  Corollary C17_short_file_rejected : forall k data, (List.length data < nonce_size)%nat ->
-    read_file open_ (Some k) data = None.
+  Corollary C17_short_file_rejected : forall k name data, (List.length data < nonce_size)%nat ->
+    read_file open_ (Some k) name data = None.
   Proof.
-    intros k data H. cbn [read_file]. unfold decrypt. apply Nat.ltb_lt in H. rewrite H. reflexivity.
+    intros k name data H. cbn [read_file]. unfold decrypt. apply Nat.ltb_lt in H. rewrite H. reflexivity.
   Qed.
 
-  Theorem C17_wrong_key : forall k k' nonce v, k <> k' -> List.length nonce = nonce_size ->
-    read_file open_ (Some k') (file_bytes seal (Some k) nonce v) = None.
+  Theorem C17_wrong_key : forall k k' name nonce v, k <> k' -> List.length nonce = nonce_size ->
+    read_file open_ (Some k') name (file_bytes seal (Some k) name nonce v) = None.
   Proof.
-    intros k k' nonce v Hk Hn. cbn [read_file file_bytes]. unfold decrypt, encrypt.
+    intros k k' name nonce v Hk Hn. cbn [read_file file_bytes]. unfold decrypt, encrypt.
     rewrite app_length, Hn.
-    assert (Hlt : (nonce_size + List.length (seal k nonce v) <? nonce_size)%nat = false) by (apply Nat.ltb_ge; lia).
+    assert (Hlt : (nonce_size + List.length (seal k name nonce v) <? nonce_size)%nat = false) by (apply Nat.ltb_ge; lia).
     rewrite Hlt. rewrite <- Hn, firstn_app, Nat.sub_diag, firstn_all, firstn_O, app_nil_r.
     rewrite skipn_app, Nat.sub_diag, skipn_all, skipn_O. cbn [app]. apply open_wrong_key. exact Hk.
   Qed.
 
-  Theorem C17_distinct : forall k n1 n2 v1 v2,
-    List.length n1 = nonce_size -> List.length n2 = nonce_size -> n1 <> n2 ->
-    file_bytes seal (Some k) n1 v1 <> file_bytes seal (Some k) n2 v2.
+  (* a file written for one key does not open under the name of another: moved, copied or exchanged files are rejected *)
+  Theorem C17_moved_file : forall k name name' nonce v, name <> name' -> List.length nonce = nonce_size ->
+    read_file open_ (Some k) name' (file_bytes seal (Some k) name nonce v) = None.
   Proof.
-    intros k n1 n2 v1 v2 H1 H2 Hne E. cbn [file_bytes] in E. unfold encrypt in E.
+    intros k name name' nonce v Hne Hn. cbn [read_file file_bytes]. unfold decrypt, encrypt.
+    rewrite app_length, Hn.
+    assert (Hlt : (nonce_size + List.length (seal k name nonce v) <? nonce_size)%nat = false) by (apply Nat.ltb_ge; lia).
+    rewrite Hlt. rewrite <- Hn, firstn_app, Nat.sub_diag, firstn_all, firstn_O, app_nil_r.
+    rewrite skipn_app, Nat.sub_diag, skipn_all, skipn_O. cbn [app]. apply open_wrong_name. exact Hne.
+  Qed.
+
+  Theorem C17_distinct : forall k name n1 n2 v1 v2,
+    List.length n1 = nonce_size -> List.length n2 = nonce_size -> n1 <> n2 ->
+    file_bytes seal (Some k) name n1 v1 <> file_bytes seal (Some k) name n2 v2.
+  Proof.
+    intros k name n1 n2 v1 v2 H1 H2 Hne E. cbn [file_bytes] in E. unfold encrypt in E.
     apply Hne.
     assert (F : forall (n a : bytes), firstn (List.length n) (n ++ a) = n).
     { intros n a. rewrite firstn_app, Nat.sub_diag, firstn_all, firstn_O, app_nil_r. reflexivity. }
-    rewrite <- (F n1 (seal k n1 v1)), <- (F n2 (seal k n2 v2)), H1, H2, E. reflexivity.
+    rewrite <- (F n1 (seal k name n1 v1)), <- (F n2 (seal k name n2 v2)), H1, H2, E. reflexivity.
   Qed.
 End C17.
 Print Assumptions C17_wiring.
 Print Assumptions C17_tamper.
 Print Assumptions C17_roundtrip.
 Print Assumptions C17_wrong_key.
+Print Assumptions C17_moved_file.
 Print Assumptions C17_distinct.
 
 (* non-vacuity: the laws are satisfiable (a toy cipher), and the wiring on concrete parameters *)
